@@ -23,7 +23,8 @@ RULE = ("One chain case = one run of optimize_mps on a Hermitian Hamiltonian wit
         "sweep's reported energy equals a_0, Davidson values flagged converged lie in the spectrum of A, and states "
         "returned losslessly from such a micro-iteration are eigenstates. Davidson kernel cases: davidson/davidson1 "
         "on random real-symmetric / complex-Hermitian matrices (dim 5..300; degenerate, clustered, block-diagonal with "
-        "the guess in an invariant subspace, diagonally dominant). Non-trivial chain run: >= 1 executed truncating "
+        "the guess in an invariant subspace, diagonally dominant, nearly diagonal with the diagonal preconditioner), "
+        "with the Gram matrix of the trial vectors monitored through the callback hook. Non-trivial chain run: >= 1 executed truncating "
         "sweep (bond limit below the generic rank of the sector at some cut) AND the last executed sweep not "
         "truncating, sector with >= 2 states; distinct by (model, terms, sector, schedule, method, solver).")
 ASSUMPTIONS = [
